@@ -21,7 +21,7 @@ MANIFEST = {
 }
 
 PRESETS = ['default', 'minimal', 'fw-transformers', 'extended', 'verbose', 'extended_rounded']
-BOUNDS = {'quick': {'formula': 1, 'keepdrop': [4, 5], 'union': 2, 'parse': 3}, 'thorough': {'formula': 1, 'keepdrop': [3, 4, 5, 6], 'union': 3, 'parse': 4}}
+BOUNDS = {'quick': {'formula': 1, 'keepdrop': [4, 5], 'union': 2, 'parse': 3}, 'thorough': {'formula': 1, 'keepdrop': [3, 4, 5, 6], 'union': 2, 'parse': 4}}
 INFO = {
     'engine': 'symx + z3 (QF_UFLRA)',
     'explanation': 'formula: exists X in R: expr(X) != ref_name(X) must be unsat for each of the table entries, sqrt/log/round/products uninterpreted.',
@@ -137,6 +137,15 @@ def c_ref(name, xs):
         return t[name]()
 
 
+def same_num(a, b):
+    a, b = float(a), float(b)
+    if math.isnan(a) or math.isnan(b):
+        return math.isnan(a) and math.isnan(b)
+    if math.isinf(a) or math.isinf(b):
+        return a == b
+    return a == b or abs(a - b) <= 1e-9 * max(1.0, abs(a))
+
+
 def jobs(tier):
     import pandas  # noqa
     b = BOUNDS[tier]
@@ -189,7 +198,7 @@ def run_formula(job):
             with np.errstate(all='ignore'):
                 real = eval(expr, {'np': np, 'X': np.array(pts)})
                 exp = c_ref(name, pts)
-            same = all((math.isnan(a) and math.isnan(b)) or a == b or abs(a - b) <= 1e-9 * max(1, abs(a)) for a, b in zip(map(float, real), map(float, exp)))
+            same = all(same_num(a, b) for a, b in zip(real, exp))
             out.validated += 1
             if not same:
                 out.concrete_fail({'cond': 'formula', 'table': job['table'], 'name': name, 'expr': expr, 'X': [str(p) for p in pts]}, f'{name}: numpy evaluation differs from the reference on sample points')
@@ -252,30 +261,65 @@ def union_expected(names, vault):
     return u
 
 
+def _vault_snapshot(tv):
+    return {k: dict(v) for k, v in tv._tr_global_namespace.items()}
+
+
+def _vault_restore(tv, snap):
+    for k, v in snap.items():
+        d = tv._tr_global_namespace[k]
+        if d != v:
+            d.clear()
+            d.update(v)
+
+
+def union_history(rt, tv, snap, first, second):
+    """two constructions in one process: the second one must still see the presets as shipped"""
+    probs = []
+    for names in (first, second):
+        if not names:
+            continue
+        tr = rt.FeatureTransformerGeneric({'num'}, ','.join(names))
+        exp = union_expected(names, snap)
+        if tr.transformer_collection != exp:
+            probs.append(f'preset list {",".join(names)!r}' + (f' (after a transformer built with {",".join(first)!r})' if names is second and first else '') +
+                         f' selects {len(tr.transformer_collection)} transformers, the union of the shipped presets has {len(exp)}')
+            break
+    return probs
+
+
 def run_union(job):
     K = job['k']
     rt = real_generic()
     import outrank.feature_transformations.feature_transformer_vault as tv
+    snap = _vault_snapshot(tv)
     st = {}
 
     def setup(ctx):
-        st['len'] = z3.Int('len')
-        ctx.assume(st['len'] >= 1, st['len'] <= K)
-        st['p'] = [z3.Int(f'p{i}') for i in range(K)]
-        for i, v in enumerate(st['p']):
-            ctx.assume(v >= 0, v < len(PRESETS))
-            ctx.assume(z3.Implies(st['len'] <= i, v == 0))
+        for tag in ('a', 'b'):
+            L = z3.Int(f'len{tag}')
+            ctx.assume(L >= (0 if tag == 'a' else 1), L <= K)
+            st['len' + tag] = L
+            st['p' + tag] = [z3.Int(f'p{tag}{i}') for i in range(K)]
+            for i, v in enumerate(st['p' + tag]):
+                ctx.assume(v >= 0, v < len(PRESETS))
+                ctx.assume(z3.Implies(L <= i, v == 0))
 
     def body(ctx, out):
-        L = int(SInt(st['len'], 1, K))
-        names = [PRESETS[int(SInt(st['p'][i], 0, len(PRESETS) - 1))] for i in range(L)]
-        tr = rt.FeatureTransformerGeneric({'num'}, ','.join(names))
-        exp = union_expected(names, tv._tr_global_namespace)
-        if tr.transformer_collection == exp and not out.twin:
-            out.concrete_ok()
+        lists = []
+        for tag in ('a', 'b'):
+            L = int(SInt(st['len' + tag], 0, K))
+            lists.append([PRESETS[int(SInt(st['p' + tag][i], 0, len(PRESETS) - 1))] for i in range(L)])
+        _vault_restore(tv, snap)
+        try:
+            probs = union_history(rt, tv, snap, lists[0], lists[1])
+        finally:
+            _vault_restore(tv, snap)
+        if probs or out.twin:
+            out.concrete_fail({'cond': 'union', 'first': lists[0], 'presets': lists[1]}, probs[0] if probs else 'twin')
         else:
-            out.concrete_fail({'cond': 'union', 'presets': names}, 'preset list does not select the union')
-        out.sample({'presets': names, 'entries': len(tr.transformer_collection)})
+            out.concrete_ok()
+        out.sample({'first': lists[0], 'second': lists[1]})
     return hutil.run_symx(job, setup, body)
 
 
@@ -322,6 +366,13 @@ def run_parse(job):
     return hutil.run_symx(job, setup, body)
 
 
+def SHIPPED_PRESETS():
+    """the presets as shipped, read from the source files (not from the possibly mutated live module)"""
+    d, fw = load_tables()
+    return {'default': dict(d['DEFAULT_TRANSFORMERS']), 'minimal': dict(d['MINIMAL_TRANSFORMERS']), 'fw-transformers': dict(fw['FW_TRANSFORMERS']),
+            'extended': dict(d['EXTENDED_TRANSFORMERS']), 'verbose': dict(d['VERBOSE_TRANSFORMERS']), 'extended_rounded': dict(d['EXTENDED_ROUNDED_TRANSFORMERS'])}
+
+
 def run_job(job):
     return {'formula': run_formula, 'keepdrop': run_keepdrop, 'union': run_union, 'parse': run_parse}[job['cond']](job)
 
@@ -333,17 +384,14 @@ def replay(w):
     import outrank.feature_transformations.feature_transformer_vault as tv
     c = w['cond']
     if c == 'union':
-        names = w['presets']
-        try:
-            tr = rt.FeatureTransformerGeneric({'num'}, ','.join(names))
-            got = tr.transformer_collection
-        except NotImplementedError as e:
-            got = f'NotImplementedError {e}'
-        exp = union_expected(names, tv._tr_global_namespace)
-        if got != exp:
-            last_only = isinstance(got, dict) and got == dict(tv._tr_global_namespace[names[-1]])
-            return {'reproduced': True, 'signature': 'C12:preset-list-keeps-last-only' if last_only else 'C12:preset-union',
-                    'what': f'preset list {",".join(names)!r} selects {len(got) if isinstance(got, dict) else got} transformers, the union has {len(exp)}'}
+        snap = SHIPPED_PRESETS()
+        probs = union_history(rt, tv, snap, w.get('first') or [], w['presets'])
+        if probs:
+            names = w['presets']
+            got = rt.FeatureTransformerGeneric({'num'}, ','.join(names)).transformer_collection if False else None
+            hist = bool(w.get('first'))
+            sig = 'C12:preset-union-after-history' if (hist and not union_history(rt, tv, SHIPPED_PRESETS(), [], w['presets']) == probs and 'after a transformer' in probs[0]) else 'C12:preset-union'
+            return {'reproduced': True, 'signature': sig, 'what': probs[0]}
         return {'reproduced': False, 'what': 'union selected'}
     if c == 'keepdrop':
         col = w['col']
@@ -387,7 +435,7 @@ def replay(w):
     with np.errstate(all='ignore'):
         real = eval(expr, {'np': np, 'X': np.array(pts, dtype=float)})
         exp = c_ref(name, pts)
-    diffs = [(p, float(a), float(b)) for p, a, b in zip(pts, real, exp) if not ((math.isnan(a) and math.isnan(b)) or a == b or abs(a - b) <= 1e-9 * max(1, abs(a)))]
+    diffs = [(p, float(a), float(b)) for p, a, b in zip(pts, real, exp) if not same_num(a, b)]
     if diffs:
         return {'reproduced': True, 'signature': f'C12:formula:{name}', 'what': f'{name} = {expr!r}: at X={diffs[0][0]} gives {diffs[0][1]}, the named formula gives {diffs[0][2]}'}
     return {'reproduced': False, 'what': 'expression equals its named formula on the sample points'}
